@@ -21,7 +21,7 @@ echo "--- demos on clean tree" >>$OUT
 C1=$(run demo.bin); C2=$(run demo-tsan.bin)
 git apply $M/patch.diff || { echo RESULT patch-does-not-apply; exit 1; }
 libs || { git checkout -q -- .; echo RESULT mutated-build-failed; exit 1; }
-meson test -C build >$M/verify.tests 2>&1; T=$?
+meson test -t 6 -C build >$M/verify.tests 2>&1; T=$?
 OKN=$(grep -E "^Ok:" $M/verify.tests | awk '{print $2}')
 echo "--- demos on changed tree" >>$OUT
 M1=$(run demo.bin); M2=$(run demo-tsan.bin)
